@@ -96,3 +96,39 @@ def c10_plan_request(valid, unit, v, r):
 def c10_attempts(valid, unit, sends, clean):
     """attempts seen on the wire = handshake requests sent (every attempt starts with one)"""
     return sum(1 for (_, _, data, _) in sends if data.startswith(HANDSHAKE))
+
+
+def decode_variants(valid, rnd):
+    """C04: the packets of a multi-packet response in another arrival order (reversed, rotated, shuffled): the response
+    carries its own packet numbers, so what is decoded is the same state"""
+    import copy
+    if valid.notwf or not valid.want.startswith("OK"):
+        return []
+    c = valid.case()
+    groups = fragment_groups(c)
+    if not groups:
+        return []
+    out = []
+    for k, how in enumerate(("reversed", "rotated", "shuffled")):
+        c2 = valid.case()
+        same = True
+        for ci, start, count in groups:
+            part = c2.script[ci][start:start + count]
+            if how == "reversed":
+                new = part[::-1]
+            elif how == "rotated":
+                new = part[1:] + part[:1]
+            else:
+                new = part[:]
+                rnd.shuffle(new)
+            same = same and new == part
+            c2.script[ci][start:start + count] = new
+        if same:
+            continue
+        v = copy.copy(valid)
+        v.tags = dict(valid.tags)
+        v.tags["THM"] = "0"
+        v.id = f"{valid.id}o{k}"
+        v.line = c2.line(v.id)
+        out.append(v)
+    return out
